@@ -301,3 +301,248 @@ Proof.
   - apply Z.testbit_0_l.
   - rewrite fold_lor_acc. rewrite Z.lor_spec. rewrite Z.lor_0_l. rewrite IH; auto. intros c Hc. apply Hp. right; auto.
 Qed.
+
+(* =========================================================================================== *)
+(* 3. Which components calc_cvcs evaluates; coverage of the item list                           *)
+(* =========================================================================================== *)
+Lemma enabled_from_length i flags : length (enabled_from i flags) = count_true flags.
+Proof.
+  revert i. induction flags as [|b r IH]; intros i; cbn [enabled_from count_true]; auto.
+  destruct b; cbn [length]; rewrite IH; auto.
+Qed.
+
+Lemma enabled_from_ge i flags j : In j (enabled_from i flags) -> i <= j.
+Proof.
+  revert i. induction flags as [|b r IH]; intros i; cbn [enabled_from]; intros H.
+  - inversion H.
+  - destruct b.
+    + destruct H as [H|H]; [lia|]. apply IH in H. lia.
+    + apply IH in H. lia.
+Qed.
+
+Lemma enabled_from_NoDup i flags : NoDup (enabled_from i flags).
+Proof.
+  revert i. induction flags as [|b r IH]; intros i; cbn [enabled_from].
+  - constructor.
+  - destruct b; auto. constructor; auto. intros H. apply enabled_from_ge in H. lia.
+Qed.
+
+Lemma enabled_from_spec i flags j : In j (enabled_from i flags) <-> i <= j /\ nth (j - i) flags false = true.
+Proof.
+  revert i. induction flags as [|b r IH]; intros i; cbn [enabled_from].
+  - split; [intros H; inversion H|]. intros [_ H]. destruct (j - i); discriminate.
+  - destruct b.
+    + split.
+      * intros [H|H].
+        -- subst. split; auto. rewrite Nat.sub_diag. reflexivity.
+        -- apply IH in H. destruct H as [H1 H2]. split; [lia|]. replace (j - i) with (S (j - S i)) by lia. exact H2.
+      * intros [H1 H2]. destruct (Nat.eq_dec i j) as [E|E]; [left; auto|right].
+        apply IH. split; [lia|]. replace (j - i) with (S (j - S i)) in H2 by lia. exact H2.
+    + split.
+      * intros H. apply IH in H. destruct H as [H1 H2]. split; [lia|]. replace (j - i) with (S (j - S i)) by lia. exact H2.
+      * intros [H1 H2]. apply IH. destruct (Nat.eq_dec i j) as [E|E].
+        -- subst. rewrite Nat.sub_diag in H2. discriminate.
+        -- split; [lia|]. replace (j - i) with (S (j - S i)) in H2 by lia. exact H2.
+Qed.
+
+Lemma scan_0 flags i : scan flags i 0 = [].
+Proof. destruct flags; reflexivity. Qed.
+
+Lemma scan_all flags i : scan flags i (count_true flags) = enabled_from i flags.
+Proof.
+  revert i. induction flags as [|b r IH]; intros i; cbn [count_true enabled_from].
+  - reflexivity.
+  - destruct b.
+    + cbn [scan]. rewrite IH. reflexivity.
+    + specialize (IH (S i)). destruct (count_true r) as [|n]; [|exact IH].
+      rewrite <- IH. destruct r; reflexivity.
+Qed.
+
+Lemma first_index_ge flags i k : i <= first_index flags i k.
+Proof.
+  revert i k. induction flags as [|b r IH]; intros i k; cbn [first_index]; auto.
+  destruct b.
+  - destruct k; auto. specialize (IH (S i) k). lia.
+  - specialize (IH (S i) k). lia.
+Qed.
+
+Lemma scan_one flags i k :
+  scan (skipn (first_index flags i k - i) flags) (first_index flags i k) 1 =
+  match nth_error (enabled_from i flags) k with Some j => [j] | None => [] end.
+Proof.
+  revert i k. induction flags as [|b r IH]; intros i k; cbn [first_index enabled_from].
+  - rewrite Nat.sub_diag. cbn [skipn scan]. destruct k; reflexivity.
+  - destruct b.
+    + destruct k as [|k'].
+      * rewrite Nat.sub_diag. cbn [skipn scan nth_error]. rewrite scan_0. reflexivity.
+      * assert (Hge := first_index_ge r (S i) k').
+        replace (first_index r (S i) k' - i) with (S (first_index r (S i) k' - S i)) by lia.
+        cbn [skipn nth_error]. apply IH.
+    + assert (Hge := first_index_ge r (S i) k).
+      replace (first_index r (S i) k - i) with (S (first_index r (S i) k - S i)) by lia.
+      cbn [skipn]. apply IH.
+Qed.
+
+(* item k of a variable evaluates exactly its k-th enabled component *)
+Lemma calc_cvcs_one flags k :
+  calc_cvcs flags k 1 = match nth_error (enabled flags) k with Some j => [j] | None => [] end.
+Proof.
+  unfold calc_cvcs, loop_cvcs, enabled. cbn [Nat.eqb].
+  rewrite <- (scan_one flags 0 k). rewrite Nat.sub_0_r. reflexivity.
+Qed.
+
+Lemma scan_from_first flags i :
+  scan (skipn (first_index flags i 0 - i) flags) (first_index flags i 0) (count_true flags) = enabled_from i flags.
+Proof.
+  revert i. induction flags as [|b r IH]; intros i; cbn [first_index enabled_from count_true].
+  - rewrite Nat.sub_diag. reflexivity.
+  - destruct b.
+    + rewrite Nat.sub_diag. cbn [skipn scan]. rewrite scan_all. reflexivity.
+    + assert (Hge := first_index_ge r (S i) 0).
+      replace (first_index r (S i) 0 - i) with (S (first_index r (S i) 0 - S i)) by lia.
+      cbn [skipn]. apply IH.
+Qed.
+
+(* the serial call calc_cvcs(0, 0) evaluates every enabled component, in index order *)
+Lemma calc_cvcs_all flags : calc_cvcs flags 0 0 = enabled flags.
+Proof.
+  unfold calc_cvcs, loop_cvcs, enabled. cbn [Nat.eqb].
+  rewrite <- (scan_from_first flags 0). rewrite Nat.sub_0_r. reflexivity.
+Qed.
+
+Lemma pick_all_gen {A} (l p : list A) :
+  flat_map (fun k => match nth_error (p ++ l) k with Some a => [a] | None => [] end) (seq (length p) (length l)) = l.
+Proof.
+  revert p. induction l as [|a r IH]; intros p; cbn [length seq flat_map]; auto.
+  rewrite nth_error_app2 by lia. rewrite Nat.sub_diag. cbn [nth_error app].
+  f_equal. specialize (IH (p ++ [a])). rewrite <- app_assoc in IH. cbn [app] in IH.
+  rewrite app_length in IH. cbn [length] in IH. rewrite Nat.add_1_r in IH. exact IH.
+Qed.
+
+Lemma pick_all {A} (l : list A) : pick l (seq 0 (length l)) = l.
+Proof. exact (pick_all_gen l []). Qed.
+
+Lemma flat_map_map {A B C} (f : B -> list C) (g : A -> B) (l : list A) :
+  flat_map f (map g l) = flat_map (fun x => f (g x)) l.
+Proof. induction l as [|a l IH]; cbn [map flat_map]; auto. rewrite IH. reflexivity. Qed.
+
+Lemma map_flat_map {A B C} (g : B -> C) (h : A -> list B) (l : list A) :
+  flat_map (fun k => map g (h k)) l = map g (flat_map h l).
+Proof. induction l as [|a l IH]; cbn [flat_map map]; auto. rewrite map_app, IH. reflexivity. Qed.
+
+Lemma var_items_cover vs (p : nat * var) : flags_of vs (fst p) = v_flags (snd p) ->
+  flat_map (item_evaluates vs) (var_items p) = map (pair (fst p)) (enabled (v_flags (snd p))).
+Proof.
+  intros Hf. unfold var_items. rewrite flat_map_map. unfold item_evaluates. cbn [fst snd].
+  rewrite Hf. rewrite (map_flat_map (pair (fst p)) (fun k => calc_cvcs (v_flags (snd p)) k 1)).
+  f_equal.
+  rewrite (flat_map_ext _ _ (fun k => calc_cvcs_one (v_flags (snd p)) k)).
+  unfold enabled at 2. rewrite <- (enabled_from_length 0). apply pick_all.
+Qed.
+
+Lemma items_cover vs (avs : list (nat * var)) :
+  (forall p, In p avs -> flags_of vs (fst p) = v_flags (snd p)) ->
+  flat_map (item_evaluates vs) (build_items avs) = active_pairs avs.
+Proof.
+  induction avs as [|p r IH]; intros H; cbn [build_items active_pairs flat_map]; auto.
+  unfold build_items in *. rewrite flat_map_app. rewrite var_items_cover by (apply H; left; auto).
+  unfold active_pairs in IH. rewrite IH; auto. intros q Hq. apply H. right; auto.
+Qed.
+
+(* per item: zero or one component, as a list of lists (what smp_cvc_work maps over) *)
+Lemma items_cover_concat vs (avs : list (nat * var)) :
+  (forall p, In p avs -> flags_of vs (fst p) = v_flags (snd p)) ->
+  concat (map (item_evaluates vs) (build_items avs)) = active_pairs avs.
+Proof. intros H. rewrite <- flat_map_concat_map. apply items_cover; auto. Qed.
+
+Lemma NoDup_app_intro {A} (l1 l2 : list A) :
+  NoDup l1 -> NoDup l2 -> (forall x, In x l1 -> ~ In x l2) -> NoDup (l1 ++ l2).
+Proof.
+  induction l1 as [|a l1 IH]; cbn [app]; intros H1 H2 Hd; auto.
+  inversion H1 as [|a' l' Hni Hnd]; subst. constructor.
+  - rewrite in_app_iff. intros [H|H]; [auto|]. apply (Hd a); [left|]; auto.
+  - apply IH; auto. intros x Hx. apply Hd. right; auto.
+Qed.
+
+Lemma active_pairs_In avs v c :
+  In (v, c) (active_pairs avs) <-> exists x, In (v, x) avs /\ In c (enabled (v_flags x)).
+Proof.
+  unfold active_pairs. rewrite in_flat_map. split.
+  - intros ([v' x] & Hin & Hm). cbn [fst snd] in Hm. rewrite in_map_iff in Hm. destruct Hm as (c' & E & Hc).
+    inversion E; subst. exists x. auto.
+  - intros (x & Hin & Hc). exists (v, x). split; auto. cbn [fst snd]. rewrite in_map_iff. exists c. auto.
+Qed.
+
+Lemma active_pairs_NoDup avs : NoDup (map fst avs) -> NoDup (active_pairs avs).
+Proof.
+  induction avs as [|p r IH]; cbn [map]; intros H.
+  - constructor.
+  - inversion H as [|a l Hni Hnd]; subst. unfold active_pairs. cbn [flat_map]. apply NoDup_app_intro.
+    + apply FinFun.Injective_map_NoDup; [|apply enabled_from_NoDup]. intros a b E. inversion E; auto.
+    + apply IH; auto.
+    + intros [v c] H1 H2. rewrite in_map_iff in H1. destruct H1 as (c' & E & _). inversion E; subst.
+      apply active_pairs_In in H2. destruct H2 as (x & Hin & _). apply Hni.
+      rewrite in_map_iff. exists (fst p, x). auto.
+Qed.
+
+(* indexed lists *)
+Lemma indexed_from_fst {A} n (l : list A) : map fst (indexed_from n l) = seq n (length l).
+Proof. revert n. induction l as [|a l IH]; intros n; cbn [indexed_from map length seq]; auto. rewrite IH. auto. Qed.
+
+Lemma indexed_from_nth {A} n (l : list A) i x : In (i, x) (indexed_from n l) -> n <= i /\ nth_error l (i - n) = Some x.
+Proof.
+  revert n. induction l as [|a l IH]; intros n; cbn [indexed_from]; intros H.
+  - inversion H.
+  - destruct H as [H|H].
+    + inversion H; subst. split; auto. rewrite Nat.sub_diag. reflexivity.
+    + apply IH in H. destruct H as [H1 H2]. split; [lia|]. replace (i - n) with (S (i - S n)) by lia. exact H2.
+Qed.
+
+Lemma filter_fst_NoDup {A B} (f : A * B -> bool) (l : list (A * B)) : NoDup (map fst l) -> NoDup (map fst (filter f l)).
+Proof.
+  induction l as [|p l IH]; cbn [map filter]; intros H; auto.
+  inversion H as [|a r Hni Hnd]; subst. destruct (f p); auto. cbn [map]. constructor; auto.
+  intros Hin. apply Hni. rewrite in_map_iff in *. destruct Hin as (q & E & Hq). exists q. split; auto.
+  apply filter_In in Hq. tauto.
+Qed.
+
+Lemma active_vars_NoDup t vs : NoDup (map fst (active_vars t vs)).
+Proof. unfold active_vars, indexed. apply filter_fst_NoDup. rewrite indexed_from_fst. apply seq_NoDup. Qed.
+
+Lemma active_biases_NoDup t bs : NoDup (map fst (active_biases t bs)).
+Proof. unfold active_biases, indexed. apply filter_fst_NoDup. rewrite indexed_from_fst. apply seq_NoDup. Qed.
+
+Lemma active_vars_flags t vs p : In p (active_vars t vs) -> flags_of vs (fst p) = v_flags (snd p).
+Proof.
+  unfold active_vars, indexed. intros H. apply filter_In in H. destruct H as [H _]. destruct p as [i x].
+  apply indexed_from_nth in H. destruct H as [_ H]. rewrite Nat.sub_0_r in H.
+  unfold flags_of. cbn [fst snd]. erewrite nth_error_nth; eauto.
+Qed.
+
+(* (i) the SMP item list evaluates every enabled component of every active variable exactly once *)
+Lemma items_cover_active_once (vs : list var) (t : nat) :
+  let avs := active_vars t vs in
+  let ev := flat_map (item_evaluates vs) (build_items avs) in
+  ev = active_pairs avs /\ NoDup ev /\
+  (forall v c, In (v, c) ev <-> exists x, In (v, x) avs /\ nth c (v_flags x) false = true).
+Proof.
+  cbn zeta. rewrite items_cover by (apply active_vars_flags).
+  split; auto. split.
+  - apply active_pairs_NoDup. apply active_vars_NoDup.
+  - intros v c. rewrite active_pairs_In. split; intros (x & H1 & H2); exists x; split; auto.
+    + unfold enabled in H2. apply enabled_from_spec in H2. rewrite Nat.sub_0_r in H2. tauto.
+    + unfold enabled. apply enabled_from_spec. rewrite Nat.sub_0_r. split; [lia|auto].
+Qed.
+
+(* the serial schedule evaluates the same components *)
+Lemma serial_evaluates_spec (avs : list (nat * var)) : flat_map serial_evaluates avs = active_pairs avs.
+Proof.
+  unfold active_pairs. apply flat_map_ext. intros p. unfold serial_evaluates. rewrite calc_cvcs_all. reflexivity.
+Qed.
+
+(* the code before the repair: item k = "first enabled component at array index >= k" *)
+Lemma unfixed_items_refuted :
+  let vs := [mkVar 1 [false; true; true] [] [1; 1; 1]%Z] in
+  flat_map (item_evaluates_unfixed vs) (build_items (active_vars 0 vs)) = [(0, 1); (0, 1)] /\
+  active_pairs (active_vars 0 vs) = [(0, 1); (0, 2)].
+Proof. vm_compute. split; reflexivity. Qed.
